@@ -419,6 +419,12 @@ func partC(run *vk.Run) {
 	onceRaceStore(run, newLcTarget, "handlerStore", rounds)
 	mixedConcurrent(run, newEvTarget, "eventHandlerStore", mixedRounds, iters)
 	mixedConcurrent(run, newLcTarget, "handlerStore", mixedRounds, iters)
+	hist := run.Pick(100, 1000)
+	if run.SubMode == "race" {
+		hist = run.Pick(20, 150)
+	}
+	linearizability(run, "eventHandlerStore", hist, 12)
+	linearizability(run, "handlerStore", hist, 12)
 	e2eOnceRace(run)
 	run.Logf("part C: %v", time.Since(start).Round(time.Millisecond))
 }
